@@ -7,7 +7,9 @@ use crate::delta::parser::parse_node;
 use std::mem::MaybeUninit;
 
 pub const MAX_SOURCE_LEN: usize = 1 << 31;
-const MAX_NUM_TOKENS: usize = 1 << 24;
+// The parser numbers its nodes with 24 bits and a token pays for at most
+// four nodes (see ParseTree::empty), so this many tokens always fit.
+const MAX_NUM_TOKENS: usize = (1 << 22) - 2;
 const MAX_NUM_PAYLOADS: usize = 1 << 24;
 const MAX_NUM_LEXING_ERRORS: usize = 100;
 
